@@ -17,6 +17,7 @@ import itertools
 from dataclasses import dataclass, field
 from typing import Any, Dict, List, Optional, Tuple
 
+from .absint import forks_reset as absint_forks_reset
 from . import codec, core
 from .absint import (Budget, CellV, CondV, ExcV, FuncRef, GenericList, Interp, ListV, NONE, OriginV, Seg, State, Unknown,
                      _Unmodelled, subst_value)
@@ -372,6 +373,7 @@ def run_body(interp: Interp, st: Structure, sib_or_cell: Lin, r_hint: int, prese
     interp.unroll_ranges = 16
     interp.total_steps += interp.steps
     interp.steps = 0
+    absint_forks_reset()
     try:
         outs = interp.exec_block(st.inner.body, state, COMPACT)
     finally:
@@ -465,18 +467,22 @@ class OrderModel:
         self.key_problem = f"key function has {len(outs)} outcomes on {y}"
         return None
 
-    def parent_of(self, y: Lin, q: int) -> Optional[Lin]:
-        outs = self.interp.run_function(SER, "cell_to_parent", [y, Lin(q)])
-        if len(outs) == 1 and outs[0].kind == "return" and isinstance(outs[0].value, Lin):
-            return outs[0].value
-        return None
+    def parent_of(self, y: Lin, q: int, level: int) -> Optional[Lin]:
+        """level-q ancestor of the level-`level` id form y, by the one-level step compact itself uses (cell_to_parent(cell))"""
+        for _ in range(level - q):
+            outs = self.interp.run_function(SER, "cell_to_parent", [y])
+            if len(outs) == 1 and outs[0].kind == "return" and isinstance(outs[0].value, Lin):
+                y = outs[0].value
+            else:
+                return None
+        return y
 
     def monotone_parent(self, q: int) -> Tuple[str, str]:
         """M(q): key(parent(y)) == a * floor(floor(key(y) / 2**g) / d) + c  with a > 0 for level-(q+1) ids y"""
         y = self.ids.get(q + 1)
         if y is None:
             return core.UNDECIDED, f"no id form at level {q + 1}"
-        p = self.parent_of(y, q)
+        p = self.parent_of(y, q, q + 1)
         if p is None:
             return core.UNDECIDED, "parent form not determined"
         ky, kp = self.K(y), self.K(p)
@@ -631,13 +637,13 @@ def interleaving_witnesses(om: "OrderModel", sibs: Dict[int, Siblings], levels: 
             if ky is None:
                 continue
             if r2 >= rho - 1:
-                anc = om.parent_of(y, rho - 1)          # related iff the level-(rho-1) ancestor of y is the group's parent
+                anc = om.parent_of(y, rho - 1, r2)          # related iff the level-(rho-1) ancestor of y is the group's parent
                 if anc is None:
                     continue
                 gp = _grid([kb, kl, sib.parent])
                 gy = _grid([ky, anc])
             else:
-                anc = om.parent_of(sib.parent, r2)      # related iff y is the level-r2 ancestor of the group's parent
+                anc = om.parent_of(sib.parent, r2, rho - 1)      # related iff y is the level-r2 ancestor of the group's parent
                 if anc is None:
                     continue
                 gp = _grid([kb, kl, anc])
